@@ -160,8 +160,13 @@ class Unit:
             text = re.sub(rx, sub, text, flags=re.S)
         return text
 
-    def label_of(self, path):
+    def label_of(self, path, file=None):
         parts = []
+        if file and not any(el.strip().startswith('impl') for el in path):
+            # free items: prefix with the module (file stem, or directory for mod.rs)
+            segs = file.split('/')
+            stem = segs[-1][:-3]
+            parts.append(segs[-2] if stem in ('mod', 'lib') and len(segs) > 1 else stem)
         for el in path:
             el = el.strip()
             if el.startswith('impl'):
@@ -220,7 +225,7 @@ class Unit:
     # ---------------------------------------------------------------------------------------
     def emit_item(self, spec, flags):
         file, path, it = self.get_item(spec)
-        label = self.label_of(path)
+        label = self.label_of(path, file)
         text = it.text
         mr = re.match(r'(?s)\s*pub const (\w+): Range<usize> =\s*(?:range|create_range)\((.*),\s*(.*?)\);\s*$', text) if it.kind == 'const' else None
         if mr:
@@ -247,7 +252,7 @@ class Unit:
 
     def emit_fn(self, spec, flags, sections):
         file, path, it = self.get_item(spec, 'constfn' in flags)
-        label = self.label_of(path)
+        label = self.label_of(path, file)
         raw = it.text
         sha = hashlib.sha256(raw.encode()).hexdigest()[:16]
         text = self.apply_rewrites(raw)
